@@ -11,8 +11,15 @@
      - the dissipator of ANY collapse operator (dimension 2, 3) is traceless and Hermiticity preserving;
        a collapse operator on one subsystem does not move the reduced state of the other and moves its own by the
        local dissipator (bipartite registers 2x2, 2x3, 3x2, 3x3).
-   NOT modelled (TRUSTED / external): that x' = -x/tau has the solution exp(-t/tau); qutip.mesolve; positivity
-   (complete positivity of the generated semigroup); "to solver tolerance"; registers of more than two subsystems
+     - (stated in Props/C15Sol.v; Reals + Coquelicot, classical real-number axioms) the closed-form density matrix of one idle two-level subsystem
+       SOLVES the master equation d/dt rho = L(rho) built from the emitted collapse terms, entrywise for every t, with
+       rho(0) the given state; it stays Hermitian, positive semidefinite and of unit trace for all t >= 0 whenever the
+       validation accepts (t2 <= 2 t1), and leaves the positive cone for a rejected pair (boundary is tight);
+       three-level truncation: full closed form solves the master equation and stays Hermitian, positive
+       semidefinite and of unit trace for all t >= 0 (Kraus identity for the damping + Schur product with q^((i-j)^2)).
+   NOT modelled (TRUSTED / external): UNIQUENESS of the solution of the linear ODE (Picard-Lindelof: that the solver's
+   exact target is this closed form); qutip.mesolve itself and "to solver tolerance"; positive semidefiniteness of
+   multi-subsystem (entangled) states, i.e. complete positivity in general; registers of more than two subsystems
    in the independence statement; ControlAmpNoise/RandomNoise/ZZCrossTalk (checked numerically by the harness only). *)
 From Coq Require Import QArith List ZArith.
 From QV Require Import Model.Relax Model.Lindblad Gen.Noise Proofs.Relax Proofs.Lindblad Proofs.RelaxLaw Proofs.LindbladInst
